@@ -20,7 +20,10 @@ REQUIRED = [
     'Ems.C11.no_shared_convention', 'Ems.C11.entry_points_spec', 'Ems.C11.match_conventions_spec',
     'Ems.C11.unmatched_refused', 'Ems.C11.first_registered_wins_ties',
 ]
-RULE = ('(1) pristine datasets of the five detectable conventions from the shared generators; (2) every single '
+RULE = ('(1) pristine datasets of the five detectable conventions from the shared generators; (1b) each of them again '
+        'with its Conventions attribute (the list of conventions it declares) respelt: every separator (blank, '
+        'comma with / without blank, semicolon, line break), string-list valued, 0-2 unrelated convention names '
+        'listed before / between / after its own - still a dataset of its convention; (2) every single '
         'near-miss mutation of each (Conventions marker, ems_version, cf_role, topology_dimension, each SHOC '
         'coordinate variable, units/standard_name/axis of the latitude/longitude variables, 1-D vs 2-D coordinates, '
         'j/i dimensions, decoy variables in front, hybrids carrying the markers of two conventions); (3) random raw '
@@ -229,6 +232,51 @@ def entry_point_cases(ctx, ds, recipe: dict, feat: dict, items: list) -> None:
 # --------------------------------------------------------------------------
 # direct property oracle for detection (independent of the Lean model)
 
+def convention_names(value) -> list | None:
+    """The names listed by a `Conventions` global attribute: CF lets them be separated by blanks or by
+    commas (some writers use semicolons); a string-array attribute holds one or more per element.
+    None: the value is not a string / sequence of strings (nothing is said about it)."""
+    import re
+    import numpy as np
+    if isinstance(value, np.ndarray):
+        value = value.tolist()
+    if isinstance(value, str):
+        parts = [value]
+    elif isinstance(value, (list, tuple)) and all(isinstance(x, str) for x in value):
+        parts = list(value)
+    else:
+        return None
+    return [n for p in parts for n in re.split(r'[\s,;]+', p) if n]
+
+
+def declares_ugrid(ds) -> bool:
+    """one of the listed convention names is UGRID (`UGRID`, `UGRID-1.0`, `UGRID/1.0`, …)"""
+    names = convention_names(ds.attrs.get('Conventions'))
+    return bool(names) and any(n.startswith('UGRID') for n in names)
+
+
+def unambiguous_mesh2d(ds) -> bool:
+    """there is a mesh topology data variable, and every variable carrying a cf_role that could be read as
+    mesh_topology is a data variable with the plain integer topology_dimension 2"""
+    import numpy as np
+    found = False
+    for name, v in ds.variables.items():
+        role = v.attrs.get('cf_role')
+        if role is None:
+            continue
+        if not isinstance(role, str):
+            return False
+        if role != 'mesh_topology':
+            continue
+        td = v.attrs.get('topology_dimension')
+        if isinstance(td, (bool, np.bool_)) or not isinstance(td, (int, np.integer)) or int(td) != 2:
+            return False
+        if name not in ds.data_vars:
+            return False
+        found = True
+    return found
+
+
 def oracle_detect(ctx, ds, feat: dict, reg_tokens: list, table: dict, desc: dict, pristine: str | None = None,
                   rebuild: bool = True) -> str:
     """Brute-force statement of the detection clauses of C11 on the real code.
@@ -302,6 +350,18 @@ def oracle_detect(ctx, ds, feat: dict, reg_tokens: list, table: dict, desc: dict
                          for v in ds.data_vars.values())
             if not (marker and mesh2d):
                 fail('ugrid-without-marker-or-mesh', f'UGrid chosen; marker={marker} 2-D mesh variable={mesh2d}')
+    # the other direction of the UGRID clause, in the unambiguous case: the dataset names UGRID among its
+    # conventions (however the list is spelt) and every mesh topology variable is a 2-D mesh
+    if declares_ugrid(ds) and unambiguous_mesh2d(ds):
+        ugrid = R.builtin_classes()['UGrid']
+        try:
+            r = ugrid.check_dataset(ds)
+        except Exception as e:  # noqa
+            r = f'raised {type(e).__name__}'
+        if r is None or isinstance(r, str):
+            fail('ugrid-dataset-not-matched',
+                 f'Conventions = {ds.attrs.get("Conventions")!r} names UGRID and the mesh topology variable is 2-D, '
+                 f'but UGrid.check_dataset gave {r}; chosen: {None if got is None else cls_name(got)}')
     if pristine is not None and not reg_tokens:
         want_name = {'cf1d': 'CFGrid1D', 'cf2d': 'CFGrid2D', 'shoc_simple': 'ShocSimple',
                      'shoc_standard': 'ShocStandard', 'ugrid': 'UGrid'}[pristine]
@@ -682,6 +742,21 @@ def run(ctx) -> None:
             if feat is None:
                 continue
             pool_for_hist.append((recipe, feat, 'pristine'))
+            # (1b) the same dataset with its list of conventions spelt in every other allowed way (separator,
+            # string list, unrelated names listed next to its own): it is still a dataset of this convention
+            gattrs = {str(k_): v_ for k_, v_ in ds.attrs.items()}
+            for label, value in R.conventions_spellings(gattrs.get('Conventions', ''), rng):
+                r1 = {'base': dict(base, attrs={**gattrs, 'Conventions': value})}
+
+                def one(r1=r1, label=label):
+                    ds1 = R.build(r1)
+                    f1 = dataset_lines(ctx, ds1, r1, items, 'respelt', pristine=conv)
+                    if f1 is not None:
+                        ctx.nontrivial(('respelt', conv, label, R.fline(f1)))
+                        ctx.count('respelt-form:' + label.split(':', 1)[1])
+                        if rng.random() < 0.1:
+                            pool_for_hist.append((r1, f1, 'respelt'))
+                ctx.guarded(one, {'recipe': r1, 'op': 'detect'})
             raw = R.to_raw(ds)
             nms = R.near_misses(raw, rng, malformed=True)
             if len(nms) > nm_cap:
